@@ -171,6 +171,11 @@ struct RefEngine {
   };
   std::vector<Base> bases;
   Json::Value scripts;
+  Json::Value costs; // plugin id -> ns its run() takes (time inside a tick)
+  int64_t clock = 0; // the model's clock within the tick
+  int64_t costOf(const std::string& id) const {
+    return costs.isObject() && costs.isMember(id) ? costs[id].asInt64() : 0;
+  }
   int nextChain = 0;
   std::vector<RefLine> out;
 
@@ -275,6 +280,7 @@ struct RefEngine {
              size_t k, const RefCtx& ctx) {
     for (size_t i = k; i < in.actions.size(); i++) {
       RefPlugin& a = in.actions[i];
+      clock += costOf(a.id);
       char r = refScriptAt(scripts, a.id, in.cg, a.runs++);
       RefLine l;
       l.tick = tick;
@@ -291,7 +297,7 @@ struct RefEngine {
         continue;
       if (r == 'S') {
         int64_t d = a.pause ? *a.pause : rs.delay;
-        in.pause_until = now + d * 1000000000LL;
+        in.pause_until = clock + d * 1000000000LL;
         return;
       }
       // ASYNC
@@ -306,6 +312,7 @@ struct RefEngine {
     for (size_t gi = 0; gi < in.groups.size(); gi++) {
       bool stop = false;
       for (auto& p : in.groups[gi]) {
+        clock += costOf(p.id);
         char r = refScriptAt(scripts, p.id, in.cg, p.runs++);
         RefLine l;
         l.tick = tick;
@@ -324,12 +331,12 @@ struct RefEngine {
         c.ruleset = rs.name;
         c.dg = rs.groupNames[gi];
         c.chain = -2; // assigned when a chain actually starts
-        c.deadline = (now - R.t0_ns) + rs.hookTimeout * 1000000000LL;
+        c.deadline = (clock - R.t0_ns) + rs.hookTimeout * 1000000000LL;
         c.target = in.cg;
         fired = c;
       }
     }
-    if (now < in.pause_until)
+    if (clock < in.pause_until)
       return;
     if (in.suspended) {
       auto s = *in.suspended;
@@ -342,6 +349,7 @@ struct RefEngine {
   }
 
   void tick(int tick, int64_t now, const Members& members) {
+    clock = now;
     // PRERUN PHASE
     int block = 0;
     auto prerunRs = [&](RefRuleset& rs) {
